@@ -231,6 +231,12 @@ def run(ctx):
             return []
         vc.oracle = orv
         ccases.append(vc)
+    # mixed-sign kernels (differencing / lagged): definition oracle on level-shifted inputs and on constants
+    for ws in ([-1.0, 0.0, 1.0, 2.0, 4.0], [4.0, 2.0, 1.0, 0.0, -1.0], [-1.0, 3.0], [3.0, -1.0], [1.0, 0.0], [0.0, 1.0], [-2.0, -1.0, 0.0]):
+        for off in (0.0, 101.5, -500.0):
+            xs = [off + rng.range(-4096, 4096) / 16.0 for _ in range(30)]
+            ccases.append(numeric.conv_case(ws, xs[0], xs, "conv-mixed-sign"))
+            ccases.append(numeric.conv_case(ws, off + 1.0, [off + 1.0] * 12, "conv-mixed-sign-constant"))
     ctx.run_suite("conv-vwma", ccases, HEADER, per_shard=10, theorem="Properties/C15.v; Properties/C02.v (C02_conv, C02_vwma)")
 
 
